@@ -75,3 +75,8 @@ pub fn vcs_types(origin: &PathS) -> (r: Vec<ProjectType>) { unimplemented!() }
 pub fn ignores(args: &Args, vcs_types: &Vec<ProjectType>) -> (r: Result<Vec<IgnoreFile>, Report>)
     ensures r is Ok ==> forall|x: IgnoreFile| explicit_files(args).contains(x) ==> #[trigger] r->Ok_0@.contains(x),
 { unimplemented!() }
+// ProjectType::is_vcs (crates/project-origins; proved against the documented table in unit origins, C20): an arbitrary fixed classification here
+impl ProjectType {
+    #[verifier::external_body]
+    pub fn is_vcs(self) -> (r: bool) ensures r == doc_is_vcs(self) { unimplemented!() }
+}
